@@ -52,7 +52,16 @@ claim("C19", "interprocedural effect analysis over SSA: abstract locations (rece
       "Decides that the 30 read-only API methods and everything they call store nothing into receiver-reachable or package-level memory, call no cursor-advancing or storage-writing method on a shared object "
       "(fresh copies and declared output parameters are allowed), and append onto no shared backing array; race freedom of read-only operations follows. Value-level equality of repeated results is argued, not checked.", "DESIGN.md §4 C19")
 
+claim("C05", "value-flow bindings over SSA (hash inputs, signer arguments, embedded bytes), structural extraction of the cryptobyte emitter nesting compared with the RFC 2315 shape, error discipline at the signer",
+      "Decides necessary conditions of interoperability: messageDigest = SHA-256(unsliced content), contentType = oid; the signer signs SHA-256 over the attribute encoder's output for those attributes with crypto.SHA256; the embedded attribute bytes are "
+      "that same output with the SET header removed by parsing; issuer = cert.RawIssuer, serial via AddASN1BigInt, cert.Raw embedded; the emitter nesting equals ContentInfo/SignedData/SignerInfo; Authenticode content = SpcIndirectDataContent(hash of the reader). "
+      "Acceptance by OpenSSL or other implementations, and DER SET-OF ordering, are not decided.", "DESIGN.md §4 C05")
+claim("C06", "value-flow bindings and writer codec tables over SignEFIVariable and the descriptor constructors; constant initialisers read from the package init function with a who-may-write check",
+      "Decides: timestamp from a UTC time with pad/ns/tz/dst never set; signed buffer order name||GUID||attributes||timestamp||payload (little endian, name unterminated, values unmodified); descriptor constants and initial length; "
+      "CertData = SignedData with outer ContentInfo stripped, detached (id-data), dwLength += len of exactly those bytes; one descriptor object whose timestamp is signed and which is emitted before the unchanged payload. "
+      "Acceptance by firmware and the clock value are not decided.", "DESIGN.md §4 C06")
+
 NA["C16"] = ("acceptance of third-party signatures depends on the bytes other tools emit at run time (attribute order/encoding "
              "chosen by OpenSSL/sbsign); the source holds no representation of them, so no structural condition beyond C04/C13 exists to check statically")
-for _i in ["C01","C03","C05","C06"]:
+for _i in ["C01","C03"]:
     NA.setdefault(_i, "rule set for this property not built yet in this round (see DESIGN.md Appendix C); no static verdict is claimed")
